@@ -129,7 +129,25 @@ class AstToSqlVisitor(visitor.NodeVisitor):
         right = self.visit(node.right)
         op = self.visit(node.op)
 
+        # In case of a subexpression that binds less tightly, wrap it in
+        # parentheses. Operators associate to the left, so a right operand of
+        # equal precedence needs them too, e.g.: x - (y - z)
+        precedence = self._arithmetic_precedence(node)
+        if self._arithmetic_precedence(node.left) < precedence:
+            left = f"({left})"
+        if self._arithmetic_precedence(node.right) <= precedence:
+            right = f"({right})"
+
         return f"{left} {op} {right}"
+
+    @staticmethod
+    def _arithmetic_precedence(node: ast._Node) -> int:
+        ":meta private:"
+        if isinstance(node, ast.BinOp):
+            if isinstance(node.op, (ast.Add, ast.Sub)):
+                return 1
+            return 2
+        return 3
 
     def visit_Eq(self, node: ast.Eq) -> str:
         ":meta private:"
